@@ -56,6 +56,7 @@ Fixpoint replayable (c : code) : Prop :=
   | Discard k | Force k => replayable k
   | RecordData key _ k => is_output_key key = false /\ replayable k
   | Enable _ _ | PlayData _ _ => False          (* mode-dependent by design: outside "the same deterministic code" *)
+  | Spawn _ _ => False                          (* worker threads: outside this (single-threaded) theorem *)
   end.
 
 (** ---- code running where the decorators do not intercept (inside an interception, or no recording) ---- *)
@@ -105,7 +106,7 @@ Section Passive.
   Theorem rec_exec_passive : forall c env s,
     replayable c -> should_intercept_rec s = false -> pres_passive s (rec_exec P c env s).
   Proof.
-    induction c as [e|ty| |cf body IHb args kwargs k IHk|cf body IHb args kwargs k IHk|c1 IH1 h IHh
+    induction c as [e|ty| |cf body IHb args kwargs k IHk|cf body IHb args kwargs k IHk|c1 IH1 h IHh|c1 IHs1 k IHsk
                     |k IHk|k IHk|b k IHk|key e k IHk|key k IHk]; intros env s Rp NI; cbn [rec_exec replayable] in *.
     - intros _. apply passive_refl.
     - intros _. apply passive_refl.
@@ -149,6 +150,7 @@ Section Passive.
       specialize (IHh env s1 Rh). rewrite Eh in IHh.
       assert (NI1 : should_intercept_rec s1 = false) by (rewrite (not_intercepting_same s s1); auto).
       specialize (IHh NI1 B2). apply passive_trans with s1; auto.
+    - destruct Rp.
     - unfold discard. destruct (active s) eqn:A.
       + unfold prepend, pres_passive. destruct (rec_exec P k env _) as [[o s2] l]. intros B.
         rewrite aborts_app in B. cbn in B. lia.
@@ -364,7 +366,7 @@ Section Sim.
     replayable c -> intercepting s ->
     sim_res R pe (rec_exec P c env s) (play_exec R c env (mk_pst (counter s) pe)).
   Proof.
-    induction c as [e|ty| |cf body IHb args kwargs k IHk|cf body IHb args kwargs k IHk|c1 IH1 h IHh
+    induction c as [e|ty| |cf body IHb args kwargs k IHk|cf body IHb args kwargs k IHk|c1 IH1 h IHh|c1 IHs1 k IHsk
                     |k IHk|k IHk|b k IHk|key e k IHk|key k IHk]; intros env s pe Rp Int;
       cbn [rec_exec play_exec replayable] in *.
     - unfold sim_res. intros _ _ _. split; [exact Int|]. repeat split; reflexivity.
@@ -379,6 +381,7 @@ Section Sim.
       + apply sim_out_call; auto. intros s0 NI. apply rec_exec_passive; auto.
       + intros v s1 I1. apply IHk; auto.
     - destruct Rp as (R1 & Rh). apply sim_bind_exn; [apply IH1; auto|intros s1 I1; apply IHh; auto].
+    - destruct Rp.
     - destruct Int as (Ic & Ac & En). unfold discard. rewrite Ac. unfold prepend, sim_res.
       destruct (rec_exec P k env _) as [[o s2] l]. intros B. exfalso. lognorm. cbn in B. lia.
     - assert (I1 : intercepting (do_force (p_ignore P) s)).
@@ -524,7 +527,7 @@ Definition user_outcome (o : outcome) : Prop := match o with OExn (EUser _) | OV
 
 Lemma plain_exec_user : forall c env, user_outcome (fst (plain_exec c env)).
 Proof.
-  induction c as [e|ty| |cf body IHb args kwargs k IHk|cf body IHb args kwargs k IHk|c1 IH1 h IHh
+  induction c as [e|ty| |cf body IHb args kwargs k IHk|cf body IHb args kwargs k IHk|c1 IH1 h IHh|c1 IHs1 k IHsk
                   |k IHk|k IHk|b k IHk|key e k IHk|key k IHk]; intros env; cbn [plain_exec]; try exact I; auto.
   - specialize (IHb (body_env (map (eval env) args) (eval_kw env kwargs))).
     unfold plain_call, pbind_val. destruct (plain_exec body _) as [o l1]. cbn [fst] in *.
@@ -534,6 +537,7 @@ Proof.
     destruct o as [v|ex|]; auto. specialize (IHk (env ++ [v])). destruct (plain_exec k _) as [o2 l2]. exact IHk.
   - specialize (IH1 env). unfold pbind_exn. destruct (plain_exec c1 env) as [o l1]. cbn [fst] in *.
     destruct o as [v|ex|]; auto. specialize (IHh env). destruct (plain_exec h env) as [o2 l2]. exact IHh.
+  - destruct (plain_exec c1 env) as [o1 l1]. specialize (IHsk env). destruct (plain_exec k env) as [o2 l2]. exact IHsk.
 Qed.
 
 Lemma rec_exec_user P c env s : user_outcome (fst (fst (rec_exec P c env s))).
